@@ -125,6 +125,12 @@ pub enum Entry {
     Bytecode,
     Wasm,
     RunVm,
+    /// front end only, through the public `compiler::emit_ast` and without any `ExecContext`
+    /// (`--emit-ast`, editor tooling): when this is the first thing the process does, the
+    /// source's identifiers are the first symbols of the interner, before the builtin names
+    Ast,
+    /// a bare `compiler::Context` without plugins or builtins
+    Bare,
 }
 
 #[derive(Clone, Debug, Serialize, Deserialize, PartialEq)]
@@ -330,6 +336,13 @@ fn run_history_item(h: &HistItem) -> (bool, bool) {
     let variant = h.ctx_variant;
     let work = move || {
         guarded(|| {
+            if entry == Entry::Ast {
+                return mimium_lang::compiler::emit_ast(&src, path.clone()).is_ok();
+            }
+            if entry == Entry::Bare {
+                let comp = mimium_lang::compiler::Context::new([], [], path.clone(), mimium_lang::Config::default().compiler);
+                return comp.emit_mir(&src).is_ok();
+            }
             let mut ctx = make_ctx_variant(path.clone(), variant);
             ctx.prepare_compiler();
             let comp = ctx.get_compiler().unwrap();
@@ -337,6 +350,7 @@ fn run_history_item(h: &HistItem) -> (bool, bool) {
                 Entry::Mir => comp.emit_mir(&src).is_ok(),
                 Entry::Bytecode => comp.emit_bytecode(&src).is_ok(),
                 Entry::Wasm => comp.emit_wasm(&src).is_ok(),
+                Entry::Ast | Entry::Bare => unreachable!(),
                 Entry::RunVm => {
                     let opts = SutOptions { with_scheduler: true, sample_rate: 48000, self_init_0: false, with_sampler: false };
                     match Sut::start(Backend::Vm, &src, path.clone(), &opts, RetireMode::Present) {
@@ -710,6 +724,25 @@ pub fn gen_c15(seed: u64, corpus: &[String]) -> DetRun {
             on_thread: r.chance(1, 3),
             ctx_variant: *r.pick(&[0u8, 0, 0, 1, 2]),
         });
+    }
+    // one run in three: the process first uses a front-end-only entry point, before any
+    // ExecContext exists, on a text built from the target's own names (separate sub-stream, so
+    // the rest of the workload does not shift)
+    let mut rf = root.sub("frontend-first");
+    if rf.chance(1, 3) {
+        let mut names = identifiers(&tsrc);
+        names.push("dsp".into());
+        let name = rf.pick(&names).clone();
+        let src = match rf.below(3) {
+            0 => target.clone(),
+            1 => Src::Text(permuting_history(&mut rf, &tsrc)),
+            _ if name == "dsp" => Src::Text("fn dsp(){ 0.0 }\n".into()),
+            _ => Src::Text(format!("fn {name}(x){{ x }}\nfn dsp(){{ {name}(1.0) }}\n")),
+        };
+        history.insert(
+            0,
+            HistItem { src, entry: if rf.chance(2, 3) { Entry::Ast } else { Entry::Bare }, on_thread: rf.chance(1, 4), ctx_variant: 0 },
+        );
     }
     DetRun {
         prop: "C15".into(),
